@@ -16,12 +16,20 @@ package derive
 
 import (
 	"fmt"
+	"go/build"
 	"go/parser"
+	"io/ioutil"
+	"os"
 
 	"golang.org/x/tools/go/loader"
 )
 
-func load(paths ...string) (*loader.Program, error) {
+// load loads the packages in paths.
+// If ignoreDerived is true, the derived.gen.go files that were left in these packages by a previous run are not loaded.
+// This is used for the first load of a run, so that the generated code depends only on the current sources
+// and not on possibly outdated function signatures, or on the remnant of an interrupted write, in an old derived.gen.go.
+// Packages are reloaded, with ignoreDerived set to false, once this run has written a new derived.gen.go.
+func load(ignoreDerived bool, paths ...string) (*loader.Program, error) {
 	conf := loader.Config{
 		ParserMode:  parser.ParseComments,
 		AllowErrors: true,
@@ -34,6 +42,19 @@ func load(paths ...string) (*loader.Program, error) {
 	if len(rest) > 0 {
 		return nil, fmt.Errorf("unhandled extra arguments: %v", rest)
 	}
+	if ignoreDerived {
+		initial := make(map[string]bool, len(conf.ImportPkgs))
+		for path := range conf.ImportPkgs {
+			initial[path] = true
+		}
+		conf.FindPackage = func(ctxt *build.Context, importPath, fromDir string, mode build.ImportMode) (*build.Package, error) {
+			bp, err := ctxt.Import(importPath, fromDir, mode)
+			if !initial[importPath] || bp == nil || !hasDerivedFile(bp) {
+				return bp, err
+			}
+			return importWithoutDerived(ctxt, bp, mode)
+		}
+	}
 	p, err := conf.Load()
 	if err != nil {
 		return nil, err
@@ -42,4 +63,40 @@ func load(paths ...string) (*loader.Program, error) {
 		return nil, fmt.Errorf("program == nil")
 	}
 	return p, nil
+}
+
+func hasDerivedFile(bp *build.Package) bool {
+	for _, names := range [][]string{bp.GoFiles, bp.InvalidGoFiles, bp.IgnoredGoFiles} {
+		for _, name := range names {
+			if name == derivedFilename {
+				return true
+			}
+		}
+	}
+	return false
+}
+
+// importWithoutDerived returns the package in the directory of bp, as if it did not contain derived.gen.go.
+func importWithoutDerived(ctxt *build.Context, bp *build.Package, mode build.ImportMode) (*build.Package, error) {
+	hidden := *ctxt
+	hidden.ReadDir = func(dir string) ([]os.FileInfo, error) {
+		infos, err := ioutil.ReadDir(dir)
+		if err != nil {
+			return nil, err
+		}
+		kept := make([]os.FileInfo, 0, len(infos))
+		for _, info := range infos {
+			if info.Name() != derivedFilename {
+				kept = append(kept, info)
+			}
+		}
+		return kept, nil
+	}
+	without, err := hidden.ImportDir(bp.Dir, mode)
+	if without != nil {
+		without.ImportPath = bp.ImportPath
+		without.Root = bp.Root
+		without.Goroot = bp.Goroot
+	}
+	return without, err
 }
